@@ -111,7 +111,7 @@ def monitor(lines, impl, which):
             if which == "C07":
                 # the timer contract judged on each process's event log: requested operations and firings in order
                 for l in entries:
-                    m = re.match(r"P (\S+) (\S+) st=\S* out=\S* s=\d+ r=\d+ log=\[(.*)\]$", l)
+                    m = re.match(r"P (\S+) (\S+) st=\S* out=\S* s=\d+ r=\d+ (?:iss=\d+ )?log=\[(.*)\]$", l)
                     if not m:
                         continue
                     pend = set()
@@ -130,7 +130,13 @@ def monitor(lines, impl, which):
                             pend.discard(name)
             if which == "C17":
                 for l in entries:
-                    m = re.match(r"P (\S+) (\S+) st=\S* out=\S* s=(\d+) r=(\d+) log=\[(.*)\]$", l)
+                    mi = re.match(r"P (\S+) \S+ st=\S* out=\S* s=\d+ r=\d+ iss=(\d+) log=\[(.*)\]$", l)
+                    if mi:
+                        nact = len(re.findall(r":(?:sent|lsent|tset|tcancel)\(", mi.group(3)))
+                        if nact != int(mi.group(2)):
+                            return (f"the handlers of {mi.group(1)} issued {mi.group(2)} Context calls since it was added (counted by the process "
+                                    f"itself), its event log records {nact} actions")
+                    m = re.match(r"P (\S+) (\S+) st=\S* out=\S* s=(\d+) r=(\d+) (?:iss=\d+ )?log=\[(.*)\]$", l)
                     if m:
                         p = m.group(1)
                         c = counts.get(p, {"s": 0, "r": 0})
